@@ -20,14 +20,14 @@ theorem issue_ne_app {env : Env} (hna : NoApp env) (ws : List Worker) (w : Nat) 
   · simp
   · exact Worker.issue_ne_app (hna w) _
 
-theorem clean_awaitInit {f : Fate} (h : f ≠ .appError) : (CoSt.awaitInit f).clean = true := by
-  cases f <;> simp_all [CoSt.clean]
+theorem clean_awaitInit {f : Fate} (h : f ≠ .appError) : (CoSt.awaitInit f).noAppErr = true := by
+  cases f <;> simp_all [CoSt.noAppErr]
 
-theorem clean_awaitNext {f : Fate} (p : Nat) (h : f ≠ .appError) : (CoSt.awaitNext f p).clean = true := by
-  cases f <;> simp_all [CoSt.clean]
+theorem clean_awaitNext {f : Fate} (p : Nat) (h : f ≠ .appError) : (CoSt.awaitNext f p).noAppErr = true := by
+  cases f <;> simp_all [CoSt.noAppErr]
 
 theorem coStep_clean {c : ICfg} (hna : NoApp c.env) {ws : List Worker} {r : RunI} {k : Nat} {m : Bool}
-    {o : CoOut} (hc : r.co.clean = true) (h : coStep c ws r k m = some o) : o.r.co.clean = true := by
+    {o : CoOut} (hc : r.co.noAppErr = true) (h : coStep c ws r k m = some o) : o.r.co.noAppErr = true := by
   cases hco : r.co with
   | start =>
     simp [coStep, hco] at h; subst h; exact clean_awaitInit (issue_ne_app hna _ _)
@@ -35,7 +35,7 @@ theorem coStep_clean {c : ICfg} (hna : NoApp c.env) {ws : List Worker} {r : RunI
     cases f with
     | ok => simp [coStep, hco] at h; subst h; exact clean_awaitNext 0 (issue_ne_app hna _ _)
     | deadline => simp [coStep, hco] at h; subst h; rfl
-    | appError => rw [hco] at hc; simp [CoSt.clean] at hc
+    | appError => rw [hco] at hc; simp [CoSt.noAppErr] at hc
     | die => simp [coStep, hco] at h
     | restart => simp [coStep, hco] at h
   | awaitNext f pos =>
@@ -48,7 +48,7 @@ theorem coStep_clean {c : ICfg} (hna : NoApp c.env) {ws : List Worker} {r : RunI
         · simp at h; subst h; exact clean_awaitNext _ (issue_ne_app hna _ _)
       · simp at h
     | deadline => simp [coStep, hco] at h; subst h; rfl
-    | appError => rw [hco] at hc; simp [CoSt.clean] at hc
+    | appError => rw [hco] at hc; simp [CoSt.noAppErr] at hc
     | die => simp [coStep, hco] at h
     | restart => simp [coStep, hco] at h
   | putDone => simp [coStep, hco] at h; subst h; rfl
@@ -73,8 +73,8 @@ theorem draw_zombies (s : IT) : s.draw.zombies = s.zombies := by
 
 structure CleanInv (s : IT) : Prop where
   nf : s.failed = []
-  run : ∀ r ∈ s.running, r.co.clean = true
-  zom : ∀ r ∈ s.zombies, r.co.clean = true
+  run : ∀ r ∈ s.running, r.co.noAppErr = true
+  zom : ∀ r ∈ s.zombies, r.co.noAppErr = true
 
 theorem cleanInv_init (nw n : Nat) : CleanInv (IT.init nw n) :=
   ⟨rfl, by simp [IT.init], by simp [IT.init]⟩
@@ -142,12 +142,12 @@ theorem cleanInv_step {c : ICfg} (hna : NoApp c.env) {s s' : IT} {l : ILabel}
     split at h
     · rename_i r _ hget
       have hr := hrun r (List.mem_of_getElem? hget)
-      have herase : ∀ x ∈ s.running.eraseIdx i, x.co.clean = true :=
+      have herase : ∀ x ∈ s.running.eraseIdx i, x.co.noAppErr = true :=
         fun x hx => hrun x (List.mem_of_mem_eraseIdx hx)
       split at h
       · simp at h; subst h; exact ⟨nf, herase, hzom⟩
       · simp at h; subst h; exact ⟨nf, herase, hzom⟩
-      · rename_i heq; rw [heq] at hr; simp [CoSt.clean] at hr
+      · rename_i heq; rw [heq] at hr; simp [CoSt.noAppErr] at hr
       · split at h
         · simp at h
         · simp at h; subst h
